@@ -27,6 +27,7 @@ import Spade.Generated.Leaf
 import Spade.Examples
 import Spade.Proofs.InsertInv
 import Spade.Proofs.LinkInv
+import Spade.Proofs.CcwInv
 namespace Spade
 
 /-- the empty triangulation as a model state -/
@@ -136,6 +137,49 @@ theorem C02_links_invariant_on_model (ops : List (Pt × Nat × Nat)) (t : St)
 /-- `legalize_edge` keeps the link invariant from any state, for any start edge -/
 theorem C02_links_invariant_legalize (s : St) (hs : s.LInv) (e : Nat) (fully : Bool) :
     (s.legalizeEdge e fully).LInv := hs.legalizeEdge e fully
+
+/-! ### counter-clockwise faces over all insertion histories of the model
+
+`St.CInv` = `LInv` plus "every inner half-edge spans a counter-clockwise, non-degenerate triangle
+with the third vertex of its face" (the second clause of the property).  The geometric facts behind
+it are exact-integer theorems: an illegal edge can always be flipped (`flip_keeps_ccw`: if the
+opposite vertex lies strictly inside the circumcircle, the quadrilateral is strictly convex), a
+point in the relative interior of an edge splits both adjacent triangles into counter-clockwise
+ones (`split_keeps_ccw`), a point strictly inside a face makes three counter-clockwise triangles,
+a point strictly outside a hull edge makes one.  Every DCEL operation of the insertion path keeps
+`CInv` under the geometric hypothesis of that operation (`Spade/Proofs/LinkInv/*`, theorems
+`CInv.*_ccw`), `legalize_edge` keeps it unconditionally, hence `insertM` and every history —
+under `insertSideOK`, which also demands that the locate answer is geometrically true
+(`LocateAnswerOK`, itself a theorem under the hypotheses of `C09_locate_sound`) and that
+hull-closing steps turn left; the driver evaluates it on every compared insertion. -/
+
+/-- exact geometry: flipping an illegal edge keeps both triangles counter-clockwise -/
+theorem C02_flip_keeps_ccw (v0 v1 v2 v3 : Pt) (h1 : 0 < orient v0 v1 v3) (h2 : 0 < orient v1 v0 v2)
+    (hin : 0 < incircle v2 v1 v0 v3) : 0 < orient v0 v2 v3 ∧ 0 < orient v2 v1 v3 :=
+  flip_keeps_ccw v0 v1 v2 v3 h1 h2 hin
+
+/-- exact geometry: splitting an edge at an interior point keeps the triangle halves counter-clockwise -/
+theorem C02_split_keeps_ccw (a b c p : Pt) (h : OnOpenSeg a b p) (hc : 0 < orient a b c) :
+    0 < orient a p c ∧ 0 < orient p b c := split_keeps_ccw a b c p h hc
+
+/-- `legalize_edge` keeps every inner face a counter-clockwise triangle, from any state, for any
+start edge (no side condition) -/
+theorem C02_ccw_invariant_legalize (s : St) (hc : s.CInv) (e : Nat) (fully : Bool) :
+    (s.legalizeEdge e fully).CInv := hc.legalizeEdge e fully
+
+/-- **one insertion of the model keeps every inner face a counter-clockwise triangle** -/
+theorem C02_ccw_invariant_insert (s t : St) (p : Pt) (d hint v : Nat) (hc : s.CInv)
+    (side : s.insertSideOK p d hint = true) (h : s.insertM p d hint = some (t, v)) : t.CInv :=
+  hc.insertM p d hint v side h
+
+/-- **every insertion history of the model, from the empty triangulation, ends with all inner
+faces counter-clockwise non-degenerate triangles and consistent links** -/
+theorem C02_ccw_invariant_on_model (ops : List (Pt × Nat × Nat)) (t : St)
+    (side : emptyModel.insertAllSideOK ops = true)
+    (h : emptyModel.insertAllM ops = some t) :
+    t.LInv ∧ ∀ e, e < t.nE → t.fc e ≠ 0 → 0 < orient (t.A e) (t.B e) (t.C e) := by
+  have hc := (St.CInv.of_degenerate (St.LInv.of_no_edges emptyModel rfl rfl rfl rfl) rfl).insertAllM ops side h
+  exact ⟨hc.links, fun e he hf => hc.ccw e he hf⟩
 
 /-- non-vacuity: the side conditions hold along a concrete history that extends the hull, splits
 edges and inserts into faces -/
